@@ -35,16 +35,17 @@ CFG = {
     "level_note": "Trusted: Coq kernel; the hand-written model (tied by correspondence on the generated cases); the transcription of the "
                   "ledger's script-integrity / auxiliary-data hash definitions and language-view encoding into ScriptDataSpec.v / LangViews.v; "
                   "extraction (ExtrOcamlBasic) and the OCaml/Rust glue. No axioms. The judge's byte slicing of the serialised witness set is proved to return the model's structured fields when every "
-                  "emitted field is a well-formed CBOR item (C09_slices_sound); not proved (tested on every case): the slicing of the outer "
-                  "transaction array / body map, and that the Gallina Blake2b-256 equals the library's. Sub-builder internals (redeemer tag/index assignment, ordering) are property C10: the model starts from the lists "
+                  "emitted field is a well-formed CBOR item (C09_slices_sound); the slicing of the outer transaction array and of the body map (any other body fields) is proved "
+                  "too (C09_tx_view_sound, C09_judge_accepts_model); not proved (tested on every case): that the Gallina Blake2b-256 equals the library's. Sub-builder internals (redeemer tag/index assignment, ordering) are property C10: the model starts from the lists "
                   "the sub-builders' getters return. A hash computed BEFORE the last script item was added is outside the statement "
-                  "(C09_stale_hash_not_detected shows build_tx does not notice); no redeemers together with a legacy array container or with a "
-                  "non-empty cost-model table is outside the helper statement (no valid transaction is in that class).",
+                  "(C09_stale_hash_not_detected shows build_tx does not notice); the helper with neither redeemers nor datums is outside the helper "
+                  "statement (the ledger then has no script_data_hash); datums without redeemers are inside it (A0 | datums | A0 for any container form and table).",
     "level": "proof",
     "theorems": ["C09_preimage_spec", "C09_preimage_spec_gen", "C09_preimage_refuted_dup_length", "C09_preimage_refuted_empty_datums",
                  "C09_views_canonical", "C09_views_only_used", "C09_same_bytes", "C09_same_bytes_history", "C09_calc_preimage",
                  "C09_aux", "C09_stale_hash_not_detected", "C09_calc_noop_keeps_hash", "C09_wf_invariant",
-                 "C09_slices_sound", "C09_same_bytes_history_bytes"],
+                 "C09_slices_sound", "C09_same_bytes_history_bytes", "C09_same_bytes_additive", "C09_aux_history",
+                 "C09_aux_format_flag", "C09_aux_wire_reencode", "C09_tx_view_sound", "C09_judge_accepts_model"],
     "allowed_axioms": [],
     "compare": _compare,
     "nontrivial": _nontrivial,
